@@ -235,37 +235,47 @@ def shape(text: str) -> str:
 
 def run(ctx: Ctx) -> int:
 	quick = ctx.quick
-	laws = tlc.run('TokLayout', 'TokLayout.cfg', workers=16, timeout=1500)
-	if not laws.ok:
-		raise Machinery(f'TLC: TokLayout.tla violates one of its own properties: {laws.out[-1200:]}')
-	ctx.log(f'TLC: {laws.distinct} states (programs x layouts), IndentsBalance / ValidIndent / LayoutInsensitive hold')
+	# all TLC jobs are independent of one another: run them side by side
+	from concurrent.futures import ThreadPoolExecutor
+	layout_cfgs = ['TokLayout_emit_2_2.cfg', 'TokLayout_emit_3_1.cfg', 'TokLayout_emit_deep.cfg'] if quick else ['TokLayout_emit_2_3.cfg', 'TokLayout_emit.cfg', 'TokLayout_emit_deep.cfg']
+	jobs = {
+		**({'laws': ('TokLayout', 'TokLayout_q31.cfg', 4, 1500), 'laws2': ('TokLayout', 'TokLayout_q22.cfg', 2, 1500)} if quick else {'laws': ('TokLayout', 'TokLayout.cfg', 8, 1500)}),
+		'munch': ('TokMunch', 'TokMunch_2.cfg' if quick else 'TokMunch_3.cfg', 2, 2400),
+		'munch_pinned': ('TokMunch', 'TokMunch_pinned.cfg', 1, 600),
+		'munch_emit': ('TokMunch', 'TokMunch_emit2.cfg' if quick else 'TokMunch_emit3.cfg', 1, 3000),
+		'quote': ('TokQuote', 'TokQuote_3.cfg' if quick else 'TokQuote_5.cfg', 2, 2400),
+		'quote_pinned': ('TokQuote', 'TokQuote_pinned.cfg', 1, 600),
+		'quote_emit': ('TokQuote', 'TokQuote_emit3.cfg' if quick else 'TokQuote_emit5.cfg', 1, 3000),
+		**{f'layout_emit_{k}': ('TokLayout', cfg, 1, 2400) for k, cfg in enumerate(layout_cfgs)},
+	}
+	with ThreadPoolExecutor(max_workers=len(jobs)) as tex:
+		futures = {name: tex.submit(tlc.run, module, cfg, workers=workers, timeout=timeout, heap='8g') for name, (module, cfg, workers, timeout) in jobs.items()}
+		done = {name: f.result() for name, f in futures.items()}
+	laws, munch, pinned, quote, qpinned = done['laws'], done['munch'], done['munch_pinned'], done['quote'], done['quote_pinned']
+	for name in ('laws', 'laws2'):
+		if name in done and not done[name].ok:
+			raise Machinery(f'TLC: TokLayout.tla violates one of its own properties: {done[name].out[-1200:]}')
+	n_layout_states = laws.distinct + (done['laws2'].distinct if 'laws2' in done else 0)
+	ctx.log(f'TLC: {n_layout_states} states (programs x layouts), IndentsBalance / ValidIndent / LayoutInsensitive hold')
 	cases = []
-	for cfg in (['TokLayout_emit_2_2.cfg', 'TokLayout_emit_3_1.cfg', 'TokLayout_emit_deep.cfg'] if quick else ['TokLayout_emit_2_3.cfg', 'TokLayout_emit.cfg', 'TokLayout_emit_deep.cfg']):
-		res = tlc.run('TokLayout', cfg, workers=1, timeout=2400, heap='8g')
-		cases += [json.loads(line) for line in res.lines('CASE ')]
+	for k in range(len(layout_cfgs)):
+		cases += [json.loads(line) for line in done[f'layout_emit_{k}'].lines('CASE ')]
 	# the lexer proper: TokMunch.tla - the lexer as a transition system against Python's maximal-munch rule
-	munch_cfg = 'TokMunch_2.cfg' if quick else 'TokMunch_3.cfg'
-	munch = tlc.run('TokMunch', munch_cfg, workers=16, timeout=2400, heap='8g')
 	if not munch.ok:
 		raise Machinery(f'TLC: TokMunch.tla violates MunchAgrees / Progress as coded: {munch.out[-1200:]}')
-	pinned = tlc.run('TokMunch', 'TokMunch_pinned.cfg', workers=4, timeout=600)
 	if pinned.ok:
 		raise Machinery('TokMunch_pinned.cfg (single characters only) satisfies MunchAgrees: the invariant is vacuous')
-	emitted = tlc.run('TokMunch', 'TokMunch_emit2.cfg' if quick else 'TokMunch_emit3.cfg', workers=1, timeout=3000, heap='8g')
-	munch_cases = [json.loads(line) for line in emitted.lines('CASE ')]
+	munch_cases = [json.loads(line) for line in done['munch_emit'].lines('CASE ')]
 	if len(munch_cases) < 7000:
 		raise Machinery(f'TokMunch emitted {len(munch_cases)} texts only')
 	ctx.log(f'TLC: TokMunch {munch.distinct} lexer states, MunchAgrees / Progress hold as coded, violated with single-character lookup; {len(munch_cases)} texts emitted')
 	# string literals: TokQuote.tla - parse_quote's search for the closing quote against Python's left-to-right rule
-	quote = tlc.run('TokQuote', 'TokQuote_4.cfg' if quick else 'TokQuote_6.cfg', workers=16, timeout=2400, heap='8g')
 	if not quote.ok:
 		raise Machinery(f'TLC: TokQuote.tla violates QuoteAgrees / Progress: {quote.out[-1200:]}')
-	qpinned = tlc.run('TokQuote', 'TokQuote_pinned.cfg', workers=4, timeout=600)
 	if qpinned.ok:
 		raise Machinery('TokQuote_pinned.cfg (search resumes behind the whole closing quote) satisfies QuoteAgrees: the invariant is vacuous')
-	emitted = tlc.run('TokQuote', 'TokQuote_emit4.cfg' if quick else 'TokQuote_emit6.cfg', workers=1, timeout=3000, heap='8g')
-	quote_cases = [json.loads(line) for line in emitted.lines('CASE ')]
-	if len(quote_cases) < 6000:
+	quote_cases = [json.loads(line) for line in done['quote_emit'].lines('CASE ')]
+	if len(quote_cases) < 4000:
 		raise Machinery(f'TokQuote emitted {len(quote_cases)} texts only')
 	ctx.log(f'TLC: TokQuote {quote.distinct} lexer states, QuoteAgrees / Progress hold, violated when the search skips a whole closing quote; {len(quote_cases)} texts emitted')
 	seen = {}
@@ -300,7 +310,7 @@ def run(ctx: Ctx) -> int:
 		s = min(fs, key=lambda f: len(f['text']))
 		violations.append(Violation(key, s['clause'], f'{s["detail"]} on {s["text"]!r} ({len(fs)} sources)', {'text': s['text'], 'layout': s['layout']}))
 	coverage = {
-		'states': laws.distinct,
+		'states': n_layout_states,
 		'transitions': laws.generated,
 		'traces_validated_against_impl': len(cases),
 		'sources_tokenized': len(cases),
@@ -312,7 +322,7 @@ def run(ctx: Ctx) -> int:
 		'unary_minus_convention_departures': len(drift),
 		'three_way_agreement_spec_cpython': len(cases),
 		'exhaustive': True,
-		'bounds': {'logical_lines': 3, 'bodies': 10, 'rewrites': 2, 'indent_units': 4},
+		'bounds': {'layout': '3 lines x 1 rewrite and 2 lines x 2 rewrites' if quick else '3 lines x 2-3 rewrites', 'deep_programs': '5 lines, 3 levels', 'bodies': 12, 'indent_units': 4, 'symbol_run': 2 if quick else 3, 'literal_body': 3 if quick else 5},
 		'samples': [cases[len(cases) // 2]['text'], cases[len(cases) // 5]['text']],
 	}
 	assumptions = ['lexical subset: decimal ints/floats, \' " """ quotes with escapes and r-prefix, operators of tranp\'s own tables that CPython lexes identically']
